@@ -16,10 +16,12 @@ package mvp2
 
 //@ func (*CPU).fetchL1i
 //@   nooverflow m.cycle, pc
-//@   ensures m.cycle == old(m.cycle) + latency.MemoryAccess && m.l1iFrom == pc
+//@   requires pc <= 2147483583
+//@   ensures m.cycle == old(m.cycle) + latency.MemoryAccess && m.l1iFrom == pc && m.l1iTo == pc + 64
 //@   assigns m.cycle, m.l1iFrom, m.l1iTo
 
 //@ func (*CPU).fetchInstruction
+//@   requires pc <= 2147483583
 //@   nooverflow m.cycle
 //@   ensures result == pc
 //@   ensures m.cycle == old(m.cycle) + (old(pc >= m.l1iFrom && pc <= m.l1iTo) ? latency.L1Access : latency.MemoryAccess)
@@ -40,6 +42,7 @@ package mvp2
 //@   ensures result2 == nil ==> m.cycle == old(m.cycle) + (risc.memReadCount(r) != 0 ? latency.MemoryAccess : 0) + ((risc.insType(r) == risc.Lb || risc.insType(r) == risc.Lh || risc.insType(r) == risc.Lw) ? 50 : 1)
 //@   ensures result2 == nil ==> result1 == risc.insType(r)
 //@   ensures result2 != nil ==> m.cycle >= old(m.cycle)
+//@   assigns m.cycle
 //@   loop 0: invariant len(memory) == _idx0 && (cap(memory) == 0 || fresh(memory)) && m.cycle == old(m.cycle) && m.ctx == old(m.ctx)
 
 // Run: the step relation is the latency model; the counter never decreases and
@@ -55,3 +58,9 @@ package mvp2
 //@   loop 0: step m.cycle <= prev(m.cycle) + latency.MemoryAccess + 1 + (risc.memReadCount(r) != 0 ? latency.MemoryAccess : 0) + ((ins == risc.Lb || ins == risc.Lh || ins == risc.Lw) ? 50 : 1) + (exe.RegisterChange ? latency.RegisterAccess : (exe.MemoryChange ? latency.MemoryAccess : 0))
 //@   loop 0: step m.cycle >= prev(m.cycle) + latency.L1Access + 1 + (risc.memReadCount(r) != 0 ? latency.MemoryAccess : 0) + ((ins == risc.Lb || ins == risc.Lh || ins == risc.Lw) ? 50 : 1) + (exe.RegisterChange ? latency.RegisterAccess : (exe.MemoryChange ? latency.MemoryAccess : 0))
 //@   loop 0: step m.cycle == prev(m.cycle) + latency.L1Access + 1 + (risc.memReadCount(r) != 0 ? latency.MemoryAccess : 0) + ((ins == risc.Lb || ins == risc.Lh || ins == risc.Lw) ? 50 : 1) + (exe.RegisterChange ? latency.RegisterAccess : (exe.MemoryChange ? latency.MemoryAccess : 0)) || m.cycle == prev(m.cycle) + latency.MemoryAccess + 1 + (risc.memReadCount(r) != 0 ? latency.MemoryAccess : 0) + ((ins == risc.Lb || ins == risc.Lh || ins == risc.Lw) ? 50 : 1) + (exe.RegisterChange ? latency.RegisterAccess : (exe.MemoryChange ? latency.MemoryAccess : 0))
+//@   -- the loop body applies exactly the Execution returned by the instruction (sequential reference semantics)
+//@   loop 0: step exe.PcChange ? pc == exe.NextPc : pc == prev(pc) + 4
+//@   loop 0: step exe.RegisterChange ==> exe.Register in m.ctx.Registers && m.ctx.Registers[exe.Register] == exe.RegisterValue
+//@   loop 0: step forall r risc.RegisterType :: !(exe.RegisterChange && r == exe.Register) ==> (r in m.ctx.Registers) == prev(r in m.ctx.Registers) && m.ctx.Registers[r] == prev(m.ctx.Registers[r])
+//@   loop 0: step !exe.RegisterChange && exe.MemoryChange ==> (forall k int32 :: k in exe.MemoryChanges ==> m.ctx.Memory[k] == exe.MemoryChanges[k])
+//@   loop 0: step forall a :: 0 <= a && a < len(m.ctx.Memory) && !(!exe.RegisterChange && exe.MemoryChange && int32(a) in exe.MemoryChanges) ==> m.ctx.Memory[a] == prev(m.ctx.Memory[a])
